@@ -26,10 +26,12 @@ THEOREMS = [
     'IblVerif.C12.lf_file_opens',
 ]
 RULE = ('scratch NP2.1 / NP2.4 recordings (385 channels, fixture meta data with rewritten size/duration, sample rate 30000 or the '
-        "fixture's 29999.757983) x processing window nwindow = 12k > 576 (biased to the minimum 588, 600, 2*576, 1200, 2400, 9000; "
+        "fixture's 29999.757983; NP2.4: the 384 channels assigned to 1..4 shanks in arbitrary consecutive blocks - 4x96 fixture, 144/48/96/96, "
+        '300/84, 383/1, one shank, unused shanks, random cuts - by rewriting snsShankMap / imroTbl, ~3/4 of the NP2.4 cases) x processing window nwindow = 12k > 576 (biased to the minimum 588, 600, 2*576, 1200, 2400, 9000; '
         'default 60000 once) x length ns placed on the boundaries of the window grid (ns = w + j*stride + d, |d| <= 13, single-window '
         'lengths, ns = taper .. , every ns mod 12 class) and below one taper (error branch); optionally nsamples < file length. '
-        'Structural cases compare LF row count, sync column, channel lists, LF meta data and the shape the file opens with against '
+        'Structural cases compare, for EVERY shank file, LF row count, sync column, channel list, LF meta data (acqApLfSy, snsApLfSy, nSavedChans, '
+        'fileSizeBytes, imSampRate, snsSaveChanSubset and _orig, shank number) and the shape spikeglx.Reader opens the file with against '
         'the Lean model, and (scipy.signal.sosfiltfilt replaced by the identity) the voltage columns against AP[12 m] picked through '
         "the model's index map. Numeric cases (broadband content: white / gaussian / coloured noise, spikes, steps; amplitude within the "
         'NP2 ADC range +-8191) run two window sizes and compare LF values pairwise (<= 1 LSB) and with whole-trace sosfiltfilt + [::12] '
@@ -79,28 +81,70 @@ def _fixture_meta(version):
     return (_src() / 'tests' / 'fixtures' / 'np2split' / d / '_spikeglx_ephysData_g0_t0.imec0.ap.meta').read_text()
 
 
+def _expand_layout(layout):
+    """layout = [[shank, count], ...] (consecutive blocks of the 384 channels) -> list of 384 shank numbers."""
+    sm = [int(s) for s, c in layout for _ in range(int(c))]
+    assert len(sm) == NCH - 1, f'layout covers {len(sm)} channels'
+    return sm
+
+
+def _meta_text(version, layout=None):
+    """Fixture meta data; for an NP2.4 `layout` the shank of every channel is rewritten in snsShankMap and imroTbl."""
+    txt = _fixture_meta(version)
+    if layout is None:
+        return txt
+    sm = _expand_layout(layout)
+
+    def relabel(m, sep, ish):
+        ent = re.findall(r'\(([^()]*)\)', m.group(2))
+        head, ent = ent[0], ent[1:]
+        assert len(ent) == len(sm)
+        out = []
+        for e, sh in zip(ent, sm):
+            f = e.split(sep)
+            f[ish] = str(sh)
+            out.append(sep.join(f))
+        return m.group(1) + f'({head})' + ''.join(f'({e})' for e in out)
+    txt = re.sub(r'(?m)^(~?snsShankMap=)(.*)$', lambda m: relabel(m, ':', 0), txt)
+    txt = re.sub(r'(?m)^(~?imroTbl=)(.*)$', lambda m: relabel(m, ' ', 1), txt)
+    return txt
+
+
 _META_CACHE = {}
 
 
-def _ap_meta_info(version):
-    """Own parse of the fixture meta data (independent of spikeglx): triples, nSavedChans, shank map, subset."""
-    if version not in _META_CACHE:
-        txt = _fixture_meta(version)
+def _ap_meta_info(version, layout=None):
+    """Own parse of the scratch meta data (independent of spikeglx): triples, nSavedChans, shank map, subset."""
+    key = (version, repr(layout))
+    if key not in _META_CACHE:
+        txt = _meta_text(version, layout)
         kv = dict(l.split('=', 1) for l in txt.splitlines() if '=' in l)
         sm = [int(x.split(':')[0]) for x in re.findall(r'\((\d+:\d+:\d+:\d+)\)', kv.get('~snsShankMap') or kv['snsShankMap'])]
-        _META_CACHE[version] = {
+        _META_CACHE[key] = {
             'acq': [int(x) for x in kv['acqApLfSy'].split(',')], 'sns': [int(x) for x in kv['snsApLfSy'].split(',')],
             'nsaved': int(kv['nSavedChans']), 'shank_map': sm, 'subset': kv['snsSaveChanSubset'], 'rate': float(kv['imSampRate'])}
-    return _META_CACHE[version]
+    return _META_CACHE[key]
 
 
-def _make_recording(tmp, version, D, rate):
+def _parse_subset(txt):
+    """'0:47,96:143,384' -> [0..47, 96..143, 384]"""
+    out = []
+    for part in str(txt).split(','):
+        if ':' in part:
+            a, b = part.split(':')
+            out += list(range(int(a), int(b) + 1))
+        elif part != '':
+            out.append(int(part))
+    return out
+
+
+def _make_recording(tmp, version, D, rate, layout=None):
     ns, nc = D.shape
     d = Path(tmp) / 'probe00'
     d.mkdir(parents=True)
     fs = float(rate) if rate else _ap_meta_info(version)['rate']
     out = []
-    for line in _fixture_meta(version).splitlines():
+    for line in _meta_text(version, layout).splitlines():
         if line.startswith('fileSizeBytes='):
             line = f'fileSizeBytes={ns * nc * 2}'
         elif line.startswith('imSampRate='):
@@ -138,7 +182,7 @@ def _identity_filter(on):
         scipy.signal.sosfiltfilt = orig
 
 
-def _convert(version, D, nwindow, nsamples=None, rate=None, identity=False):
+def _convert(version, D, nwindow, nsamples=None, rate=None, identity=False, layout=None):
     """Run the real NP2Converter on a scratch copy of D.  Returns {'err': str} or {'files': [...], 'sos': sos, 'ns_read': int}."""
     import spikeglx
     from neuropixel import NP2Converter
@@ -146,7 +190,7 @@ def _convert(version, D, nwindow, nsamples=None, rate=None, identity=False):
     conv = None
     try:
         with _quiet(), _identity_filter(identity):
-            binf = _make_recording(tmp, version, D, rate)
+            binf = _make_recording(tmp, version, D, rate, layout)
             conv = NP2Converter(binf, post_check=False, compress=False)
             ns_read = int(conv.sr.ns)
             try:
@@ -169,14 +213,18 @@ def _convert(version, D, nwindow, nsamples=None, rate=None, identity=False):
                 nbytes = f.stat().st_size
                 raw = np.fromfile(f, dtype=np.int16)
                 md = spikeglx.read_meta_data(f.with_suffix('.meta'))
-                sr = spikeglx.Reader(f, sort=False)
+                shape, typ, fs, mapped, open_err = None, None, float('nan'), None, None
                 try:
-                    shape, typ, fs = tuple(int(x) for x in sr.shape), sr.type, float(sr.fs)
-                    mapped = np.array(sr._raw).copy()
-                finally:
-                    sr.close()
+                    sr = spikeglx.Reader(f, sort=False)
+                    try:
+                        shape, typ, fs = tuple(int(x) for x in sr.shape), sr.type, float(sr.fs)
+                        mapped = np.array(sr._raw).copy()
+                    finally:
+                        sr.close()
+                except Exception as e:      # a file whose meta data contradicts its content may not open at all
+                    open_err = f'{type(e).__name__}: {str(e)[:100]}'
                 files.append({'key': key, 'chns': [int(c) for c in info['chns']], 'nbytes': int(nbytes), 'raw': raw, 'meta': dict(md),
-                              'shape': shape, 'type': typ, 'fs': fs, 'mapped': mapped})
+                              'shape': shape, 'type': typ, 'fs': fs, 'mapped': mapped, 'open_err': open_err})
             return {'files': files, 'sos': np.array(conv.sos_lp), 'status': status, 'ns_read': ns_read}
     finally:
         if conv is not None:
@@ -237,11 +285,11 @@ def _trip(v):
     return ','.join(str(int(x)) for x in v)
 
 
-def _canon_files(version, res):
+def _canon_files(version, res, layout=None):
     """Same text as `showFile` of lean/Drivers/C12.lean, built from the files on disk / the Reader."""
     if 'err' in res:
         return res['err']
-    info = _ap_meta_info(version)
+    info = _ap_meta_info(version, layout)
     out = []
     for f in res['files']:
         md = f['meta']
@@ -249,19 +297,22 @@ def _canon_files(version, res):
         rows = f['nbytes'] // (2 * nch) if f['nbytes'] % (2 * nch) == 0 else f'{f["nbytes"]}/{2 * nch}'
         fr = Fraction(md['imSampRate']).limit_denominator(10 ** 6) if not isinstance(md['imSampRate'], str) else md['imSampRate']
         rate = f'{fr.numerator}/{fr.denominator}' if isinstance(fr, Fraction) else str(fr)
-        subset = 'kept' if md.get('snsSaveChanSubset') == info['subset'] else str(md.get('snsSaveChanSubset'))
+        # NP2.1 leaves the key alone ('kept' = still the AP file's text); NP2.4 always rewrites it, possibly to the same text (one shank: 0:384)
+        subset = 'kept' if (version != 'NP2.4' and md.get('snsSaveChanSubset') == info['subset']) else str(md.get('snsSaveChanSubset'))
+        so = md.get('snsSaveChanSubset_orig', None)
+        suborig = 'none' if so is None else (','.join(map(str, _parse_subset(so))) or '-')
         shank = md.get(f'{version}_shank', None)
         shank = 'none' if shank is None else str(int(shank))
         orig = 'true' if 'original_meta' not in md else str(md['original_meta']).lower()
         out.append(f'sh={int(f["key"][5:])} rows={rows} nbytes={f["nbytes"]} chns={",".join(map(str, f["chns"]))} '
                    f'acq={_trip(md["acqApLfSy"])} sns={_trip(md["snsApLfSy"])} nsaved={int(md["nSavedChans"])} '
-                   f'size={int(md["fileSizeBytes"])} rate={rate} subset={subset} shank={shank} orig={orig} '
-                   f'type={f["type"] or "none"} shape={f["shape"][0]}x{f["shape"][1]}')
+                   f'size={int(md["fileSizeBytes"])} rate={rate} subset={subset} suborig={suborig} shank={shank} orig={orig} '
+                   + (f'type={f["type"] or "none"} shape={f["shape"][0]}x{f["shape"][1]}' if f['shape'] is not None else 'does-not-open ' + f['open_err'].split(':')[0]))
     return 'ok ' + ' | '.join(out)
 
 
-def _files_line(version, nwindow, n):
-    info = _ap_meta_info(version)
+def _files_line(version, nwindow, n, layout=None):
+    info = _ap_meta_info(version, layout)
     v = 'np24' if version == 'NP2.4' else 'np21'
     return f'files {v} {nwindow} {n} {_trip(info["acq"])} {_trip(info["sns"])} {info["nsaved"]} {",".join(map(str, info["shank_map"]))}'
 
@@ -359,6 +410,49 @@ def _gen_w_ns(rng, ov, taper, ratio, max_windows=40):
     return w, max(ns, 1), str(kind)
 
 
+SPECIAL_LAYOUTS = [
+    [[0, 144], [1, 48], [2, 96], [3, 96]],          # one 48-channel block moved to shank 0
+    [[0, 300], [1, 84]],                            # two shanks, very unequal
+    [[0, 383], [3, 1]],                             # a shank with a single channel
+    [[2, 384]],                                     # everything on one shank that is not shank 0
+    [[1, 100], [0, 92], [1, 92], [3, 100]],         # first shank in file order is not shank 0; shank 2 unused
+    [[0, 1], [1, 127], [2, 128], [3, 128]],
+    [[0, 192], [2, 192]],                           # equal, two shanks
+]
+
+
+def _gen_layout(rng):
+    """NP2.4 assignment of the 384 channels to 1..4 shanks as consecutive blocks; None = the fixture's 4 x 96 stripes."""
+    r = rng.random()
+    if r < 0.25:
+        return None
+    if r < 0.55:
+        return [list(b) for b in SPECIAL_LAYOUTS[int(rng.integers(0, len(SPECIAL_LAYOUTS)))]]
+    nb = int(rng.integers(1, 9))
+    cuts = sorted(set(int(x) for x in rng.integers(1, NCH - 1, size=nb - 1))) if nb > 1 else []
+    edges = [0] + cuts + [NCH - 1]
+    used = rng.permutation(4)[:int(rng.integers(1, 5))]
+    lay = []
+    for a, b in zip(edges[:-1], edges[1:]):
+        sh = int(used[int(rng.integers(0, len(used)))])
+        if lay and lay[-1][0] == sh:
+            lay[-1][1] += b - a
+        else:
+            lay.append([sh, b - a])
+    return lay
+
+
+def _layout_tag(version, layout):
+    if version != 'NP2.4':
+        return 'layout=np21'
+    if layout is None:
+        return 'layout=4x96'
+    cnt = {}
+    for sh, c in layout:
+        cnt[sh] = cnt.get(sh, 0) + c
+    return 'layout=uneven' if len(set(cnt.values())) > 1 else 'layout=even-custom'
+
+
 def _nwin(ns, w, ov):
     return max(-(-(ns - w) // (w - ov)), 0) + 1
 
@@ -379,22 +473,24 @@ def _tags(version, ns, w, ov, taper, extra=()):
 # ---------------------------------------------------------------------------------------------
 # correspondence
 # ---------------------------------------------------------------------------------------------
-def _structural_case(ctx, version, w, ns, extra_file, rate, sync_kind, seed, with_identity, lines, pending, tags):
+def _structural_case(ctx, version, w, ns, extra_file, rate, sync_kind, seed, with_identity, lines, pending, tags, layout=None):
     """Runs the real code now, queues the model requests; comparison happens after the Lean batch."""
     ns_file = ns + extra_file
     D = _content(ns_file, 'ramp', seed, sync_kind)
     nsamples = ns if extra_file else None
     desc = {'version': version, 'ns': ns, 'nwindow': w, 'file_extra': extra_file, 'rate': rate or 'fixture', 'sync': sync_kind, 'seed': seed}
-    res = _convert(version, D, w, nsamples=nsamples, rate=rate)
+    if layout is not None:
+        desc['layout'] = layout
+    res = _convert(version, D, w, nsamples=nsamples, rate=rate, layout=layout)
     if res.get('ns_read') != ns_file:
         raise RuntimeError(f'scratch recording of {ns_file} samples is read as {res.get("ns_read")} samples (harness, not the property)')
     nw_model = w
     k0 = len(lines)
-    lines.append(_files_line(version, nw_model, ns))
+    lines.append(_files_line(version, nw_model, ns, layout))
     lines.append(f'sync {nw_model} {ns} ' + (','.join(str(int(x)) for x in D[:ns, -1]) or '-'))
     lines.append(f'src {nw_model} {ns}')
-    ident = _convert(version, D, w, nsamples=nsamples, rate=rate, identity=True) if with_identity else None
-    pending.append({'desc': desc, 'k0': k0, 'res': res, 'ident': ident, 'D': D, 'tags': tags, 'version': version})
+    ident = _convert(version, D, w, nsamples=nsamples, rate=rate, identity=True, layout=layout) if with_identity else None
+    pending.append({'desc': desc, 'k0': k0, 'res': res, 'ident': ident, 'D': D, 'tags': tags, 'version': version, 'layout': layout})
 
 
 def _compare_structural(ctx, item, answers, taper):
@@ -403,7 +499,7 @@ def _compare_structural(ctx, item, answers, taper):
     a_files, a_sync, a_src = answers[item['k0']:item['k0'] + 3]
     nontriv = 'ns>=taper' in item['tags'] and ((ns % 12 != 0) or ('nwin=1' not in item['tags']))
     tags = item['tags']
-    ctx.compare('files', dict(desc, op='files'), _canon_files(version, res), a_files, nontrivial=nontriv, tags=('op=files',) + tags)
+    ctx.compare('files', dict(desc, op='files'), _canon_files(version, res, item.get('layout')), a_files, nontrivial=nontriv, tags=('op=files',) + tags)
     ctx.compare('sync', dict(desc, op='sync'), _canon_sync(res), a_sync, nontrivial=nontriv, tags=('op=sync',))
     # row count on its own (bytes on disk / columns written) against the model's number of index-map entries
     if 'err' in res:
@@ -443,12 +539,12 @@ def _compare_structural(ctx, item, answers, taper):
                     nontrivial=nontriv, tags=('op=volt-identity', 'interior>0' if keep.any() else 'interior=0'))
 
 
-def _numeric_check(version, D, w1, w2, rate=None, res1=None):
+def _numeric_check(version, D, w1, w2, rate=None, res1=None, layout=None):
     """The numeric half of the property on the real code: returns (None | failure text, stats)."""
     import scipy.signal
     ns = D.shape[0]
-    r1 = res1 or _convert(version, D, w1, rate=rate)
-    r2 = _convert(version, D, w2, rate=rate) if w2 != w1 else r1
+    r1 = res1 or _convert(version, D, w1, rate=rate, layout=layout)
+    r2 = _convert(version, D, w2, rate=rate, layout=layout) if w2 != w1 else r1
     stats = {}
     if 'err' in r1 or 'err' in r2:
         return f'conversion raised: {r1.get("err")} / {r2.get("err")} ({r1.get("msg", r2.get("msg", ""))})', stats
@@ -474,7 +570,7 @@ def _numeric_check(version, D, w1, w2, rate=None, res1=None):
             r, c = np.unravel_index(int(np.argmax(dw)), dw.shape)
             return (f'window dependence: shank {f1["key"][5:]} LF sample {int(r)} column {int(c)} is {int(m1[r, c])} with window {w1} '
                     f'and {int(m2[r, c])} with window {w2} (difference {int(dw[r, c])} LSB > 1)'), stats
-        if nrows > 2 * MARGIN_LF:
+        if nrows > 2 * MARGIN_LF and len(f1['chns']) > 1:
             if ref_all is None:
                 ref_all = scipy.signal.sosfiltfilt(sos, D[:, :-1].astype(np.float64), axis=0)[::12]
             cols = np.array(f1['chns'][:-1])
@@ -509,7 +605,14 @@ def correspondence(ctx):
         with_identity = ctx.quick or (i % 2 == 0)
         tags = _tags(version, ns, w, ov, taper, extra=('gen=' + kind, 'rate=30000' if rate else 'rate=fixture',
                                                          'nsamples<file' if extra_file else 'nsamples=file', 'sync=' + sync_kind))
-        _structural_case(ctx, version, w, ns, extra_file, rate, sync_kind, seed, with_identity, lines, pending, tags)
+        layout = None
+        if version == 'NP2.4':
+            layout = [list(b) for b in SPECIAL_LAYOUTS[i // 3 % len(SPECIAL_LAYOUTS)]] if (kind == 'fixed' and ns >= taper) else _gen_layout(rng)
+        tags = tags + (_layout_tag(version, layout),)
+        if layout is not None:
+            tags = tags + (f'nshanks={len(set(sh for sh, _ in layout))}',) + (('min_shank_size<=4',) if min(
+                sum(c for s2, c in layout if s2 == sh) for sh in set(s3 for s3, _ in layout)) <= 4 else ())
+        _structural_case(ctx, version, w, ns, extra_file, rate, sync_kind, seed, with_identity, lines, pending, tags, layout=layout)
     # default window (nwindow=None -> 2 s): two windows
     for version in (['NP2.1'] if ctx.quick else ['NP2.1', 'NP2.4']):
         wdef = int(ctx.consts.get('CONV_WINDOW_SECS', 2)) * int(ctx.consts.get('CONV_FS_AP', 30000))
@@ -552,9 +655,12 @@ def correspondence(ctx):
         ns = min(max(ns, 2 * MARGIN_LF * 12 + 200), ctx.n(9000, 24000))
         seed = int(rng.integers(0, 2 ** 31))
         desc = {'op': 'numeric', 'version': version, 'ns': ns, 'nwindow': w1, 'nwindow2': w2, 'content': kind, 'seed': seed}
+        layout = _gen_layout(rng) if version == 'NP2.4' else None
+        if layout is not None:
+            desc['layout'] = layout
         D = _content(ns, kind, seed)
-        fail, stats = _numeric_check(version, D, w1, w2)
-        ctx.case(desc, nontrivial=True, tags=('op=numeric', 'content=' + kind, version + '-numeric'))
+        fail, stats = _numeric_check(version, D, w1, w2, layout=layout)
+        ctx.case(desc, nontrivial=True, tags=('op=numeric', 'content=' + kind, version + '-numeric', 'numeric-' + _layout_tag(version, layout)))
         for k in worst:
             worst[k] = max(worst[k], stats.get(k, 0.0))
         if fail:
@@ -600,7 +706,8 @@ def _impl_init(w):
 # oracle (written from the property text; does not use the Lean model)
 # ---------------------------------------------------------------------------------------------
 def oracle(inp):
-    """C12 on the real code for one input {'version','ns','nwindow','nwindow2','content','seed'[, 'file_extra','rate','sync']}.
+    """C12 on the real code for one input {'version','ns','nwindow','nwindow2','content','seed'[, 'file_extra','rate','sync','layout']}
+    (`layout` = [[shank, count], ...]: NP2.4 assignment of the 384 channels to shanks in consecutive blocks; absent = fixture).
     Returns None when the property holds, else a description of what is observed."""
     version, ns = inp['version'], int(inp['ns'])
     w1, w2 = inp.get('nwindow'), inp.get('nwindow2')
@@ -611,10 +718,11 @@ def oracle(inp):
     rate = inp.get('rate')
     rate = None if rate in (None, 'fixture') else rate
     D = _content(ns + extra, inp.get('content', 'white'), int(inp.get('seed', 0)), inp.get('sync', 'random'))
-    res = _convert(version, D, w1, nsamples=(ns if extra else None), rate=rate)
+    layout = inp.get('layout') if version == 'NP2.4' else None
+    res = _convert(version, D, w1, nsamples=(ns if extra else None), rate=rate, layout=layout)
     if 'err' in res:
         return f'conversion raised {res["err"][4:]}: {res.get("msg", "")}'
-    info = _ap_meta_info(version)
+    info = _ap_meta_info(version, layout)
     sm = np.array(info['shank_map'])
     nrows = -(-ns // 12)
     want_sync = D[:ns:12, -1]
@@ -628,22 +736,35 @@ def oracle(inp):
         if f['nbytes'] != nrows * n_written * 2:
             return (f'LF file of shank {sh} holds {f["nbytes"]} bytes = {f["nbytes"] / (2 * n_written):.3f} samples of {n_written} channels, '
                     f'expected ceil({ns}/12) = {nrows} samples')
-        if float(md['imSampRate']) != 2500.0 or f['fs'] != 2500.0:
+        if float(md['imSampRate']) != 2500.0 or (f['shape'] is not None and f['fs'] != 2500.0):
             return f'LF meta data of shank {sh} declares imSampRate = {md["imSampRate"]}, expected 2500'
         if int(md['nSavedChans']) != n_written or [int(x) for x in md['snsApLfSy']] != [0, n_written - 1, 1]:
             return (f'LF meta data of shank {sh} declares nSavedChans = {md["nSavedChans"]}, snsApLfSy = {md["snsApLfSy"]}; '
                     f'{n_written} channels were written (expected [0, {n_written - 1}, 1])')
+        if [int(x) for x in md['acqApLfSy']][:2] != [0, n_written - 1]:
+            return f'LF meta data of shank {sh} declares acqApLfSy = {md["acqApLfSy"]}; {n_written} channels were written (expected [0, {n_written - 1}, ...])'
+        if version == 'NP2.4':
+            want_chns = [int(i) for i in np.where(sm == sh)[0]] + [info['nsaved'] - 1]
+            if str(md.get('snsSaveChanSubset')) != f'0:{n_written - 1}':
+                return f'LF meta data of shank {sh} declares snsSaveChanSubset = {md.get("snsSaveChanSubset")}; {n_written} channels were written (expected 0:{n_written - 1})'
+            if _parse_subset(md.get('snsSaveChanSubset_orig', '')) != want_chns:
+                return (f'LF meta data of shank {sh}: snsSaveChanSubset_orig = {md.get("snsSaveChanSubset_orig")} does not enumerate the channels of the shank '
+                        f'({len(want_chns)} channels, first {want_chns[:3]}, last {want_chns[-2:]})')
         if int(md['fileSizeBytes']) != f['nbytes']:
             return f'LF meta data of shank {sh} declares fileSizeBytes = {md["fileSizeBytes"]}, the file has {f["nbytes"]} bytes'
+        if f['shape'] is None:
+            return f'LF file of shank {sh} ({nrows} x {n_written} on disk) does not open with spikeglx.Reader: {f["open_err"]}'
         if tuple(f['shape']) != (nrows, n_written) or f['type'] != 'lf':
-            return f'LF file of shank {sh} opens as {f["type"]} with shape {f["shape"]}, its content is {nrows} x {n_written}'
+            return f'LF file of shank {sh} opens (spikeglx.Reader) as {f["type"]} with shape {tuple(f["shape"])}, its content is {nrows} x {n_written}'
+        if not np.array_equal(f['mapped'], f['raw'].reshape(nrows, n_written)):
+            return f'LF file of shank {sh}: the array mapped by spikeglx.Reader differs from the {nrows} x {n_written} content of the file'
         got = f['mapped'][:, -1]
         if not np.array_equal(got, want_sync):
             bad = int(np.where(got != want_sync)[0][0]) if got.shape == want_sync.shape else -1
             return (f'sync column of shank {sh}: LF sample {bad} is {int(got[bad])}, AP sync word at sample {12 * bad} is {int(want_sync[bad])}'
                     if bad >= 0 else f'sync column of shank {sh} has {got.shape[0]} samples, expected {want_sync.shape[0]}')
     if w2 is not None or nrows > 2 * MARGIN_LF:
-        fail, _ = _numeric_check(version, D[:ns], w1, w2 if w2 is not None else w1, rate=rate, res1=(res if extra == 0 else None))
+        fail, _ = _numeric_check(version, D[:ns], w1, w2 if w2 is not None else w1, rate=rate, res1=(res if extra == 0 else None), layout=layout)
         if fail:
             return fail
     return None
@@ -657,6 +778,9 @@ def _neighbourhood():
         for w1, w2 in ((lo, 2 * lo + 24), (lo + ratio, 4 * lo + 48), (2 * lo + 24, lo)):
             for version in ('NP2.1', 'NP2.4'):
                 out.append({'version': version, 'ns': ns, 'nwindow': w1, 'nwindow2': w2, 'content': 'white', 'seed': ns})
+            if w1 == lo:   # NP2.4 with channels unevenly spread over the shanks
+                out.append({'version': 'NP2.4', 'ns': ns, 'nwindow': w1, 'nwindow2': w2, 'content': 'white', 'seed': ns,
+                            'layout': [list(b) for b in SPECIAL_LAYOUTS[(ns // 12) % 3]]})
     return out
 
 
@@ -669,6 +793,8 @@ def search(ctx, reasons):
         inp = {'version': c['version'], 'ns': c['ns'], 'nwindow': c.get('nwindow'), 'nwindow2': c.get('nwindow2'),
                'content': c.get('content', 'white'), 'seed': c.get('seed', 0), 'file_extra': c.get('file_extra', 0),
                'rate': c.get('rate'), 'sync': c.get('sync', 'random')}
+        if c.get('layout') is not None:
+            inp['layout'] = c['layout']
         key = repr(sorted(inp.items(), key=lambda kv: kv[0]))
         if key not in seen:
             seen.add(key)
